@@ -129,10 +129,12 @@ pub fn configs(tier: Tier) -> Vec<InCfg> {
         // application states: idle / outstanding sends / two gated handlers / instead of the handshake / streaming an outbound publish
         // (clients also: a lone SUBSCRIBE / a lone UNSUBSCRIBE outstanding, so that every ack type of the
         // alphabet meets a request that is at the head of the in-flight queue)
-        for state in 0..8 {
+        for state in 0..9 {
             let mut ep = EpCfg::new(ver, role);
             ep.handler_auto = state != 2;
-            ep.proto_auto = true;
+            // state 8: the protocol service is gated - every PUBREL / SUBSCRIBE / PING ... suspends until the explorer
+            // completes it, so later packets arrive while an earlier one is inside the application (seeded change C16_r5)
+            ep.proto_auto = state != 8;
             let app_sends = if state == 1 {
                 let mut a = vec![SK::Q1, SK::Q2Hold];
                 if role == Role::Client {
@@ -149,7 +151,14 @@ pub fn configs(tier: Tier) -> Vec<InCfg> {
             } else {
                 vec![]
             };
-            let prologue = if state == 2 { vec![T::Pub { qos: 1, id: 7, len: 1, topic: 0, alias: 0 }, T::Pub { qos: 2, id: 8, len: 1, topic: 0, alias: 0 }] } else { vec![] };
+            let prologue = if state == 2 {
+                vec![T::Pub { qos: 1, id: 7, len: 1, topic: 0, alias: 0 }, T::Pub { qos: 2, id: 8, len: 1, topic: 0, alias: 0 }]
+            } else if state == 8 {
+                // a QoS 2 publish already received and acknowledged with PUBREC: its PUBREL is a packet of the alphabet
+                vec![T::Pub { qos: 2, id: 1, len: 1, topic: 0, alias: 0 }]
+            } else {
+                vec![]
+            };
             if (state == 3 && role == Role::Client) || ((state == 5 || state == 6) && role == Role::Server) || (state == 7 && role == Role::Client) {
                 continue;
             }
@@ -213,7 +222,7 @@ pub fn run(tier: Tier) -> i32 {
         ck.explore::<In>("inbound", i, c, &ecfg);
     }
     ck.rule = format!(
-        "per role and version: every sequence of up to {} well-formed packets over an alphabet of 27-31 templates (every packet type incl. those illegal in that direction, ids in use / free / unknown, PUBLISH complete / split in two or three writes / left incomplete / duplicate id / retain / wildcard topic / alias, second CONNECT, every ack type) against 5 (clients 6) application states (idle; outstanding QoS1+QoS2(+SUBSCRIBE) sends; two gated publish handlers; instead of the handshake (servers); an outbound publish being streamed; clients: a lone SUBSCRIBE, a lone UNSUBSCRIBE outstanding; clients idle / with gated handlers also behind the topic router; servers with max_receive 1 and a 10-byte max_receive_size), handler completions interleaved; oracle: no panic, poll horizon never hit, at most one Stop, Stop reason is a protocol error unless a DISCONNECT (or client-side unknown PUBREL) is in the sequence, and a connection without Stop still answers a probe packet after the drain",
+        "per role and version: every sequence of up to {} well-formed packets over an alphabet of 27-31 templates (every packet type incl. those illegal in that direction, ids in use / free / unknown, PUBLISH complete / split in two or three writes / left incomplete / duplicate id / retain / wildcard topic / alias, second CONNECT, every ack type) against 6 (clients 7) application states (idle; idle with a gated protocol service and a QoS 2 publish awaiting its PUBREL; outstanding QoS1+QoS2(+SUBSCRIBE) sends; two gated publish handlers; instead of the handshake (servers); an outbound publish being streamed; clients: a lone SUBSCRIBE, a lone UNSUBSCRIBE outstanding; clients idle / with gated handlers also behind the topic router; servers with max_receive 1 and a 10-byte max_receive_size), handler completions interleaved; oracle: no panic, poll horizon never hit, at most one Stop, Stop reason is a protocol error unless a DISCONNECT (or client-side unknown PUBREL) is in the sequence, and a connection without Stop still answers a probe packet after the drain",
         if tier == Tier::Quick { 3 } else { 4 }
     );
     ck.assumptions = vec!["FIFO task order of ntex-rt; nondeterminism = timing of environment events (DESIGN 2.4)".into()];
